@@ -85,6 +85,8 @@ let show_expect (p0 : n) (x : expect) : string =
   | XErr -> "err"
   | XAny -> "-"
 
+let spec_max_len = 4096
+
 let d_handler (args : string list) : string =
   match args with
   | a :: hex :: rest ->
@@ -99,9 +101,17 @@ let d_handler (args : string list) : string =
         | Some ac ->
             let r = show_run show_aval (run_acc c ac st) in
             (* the specification speaks about well-formed items only *)
+            (* the reference parser recurses to the nesting depth and measures the remaining input at every level
+               (quadratic), so no expectation is computed for inputs longer than spec_max_len bytes; the model run, the
+               model/implementation comparison and the harness' O= oracle are not affected *)
             let spec =
+              if List.length st.drest > spec_max_len then "-" else
               (match parse (S (nat_of_int (List.length st.drest))) st.drest with
-               | Some (e, _) when wf e -> show_expect pos (spec_acc ac e)
+               | Some (e, _) when wf e ->
+                   (* C06: a build without `alloc` may answer the documented unsupported-nesting error; the specification
+                      demands success only on the syntactic class Acc.noalloc_ok *)
+                   if ac = ASkip && not c.c_alloc && not (noalloc_ok e) then "-"
+                   else show_expect pos (spec_acc ac e)
                | _ -> "-") in
             with_spec r spec)
   | _ -> "?bad-D"
